@@ -19,6 +19,13 @@ CLAIMS = {
             "(whether the binary search finds the first qualifying message is outside static reach).", "DESIGN.md §3 C03"),
 }
 
+CLAIMS["C08"] = ("MIR dataflow (key provenance at the index insert, iterator provenance in the walk), decision-path enumeration of the prefilter loop, compiler layout facts vs const match tables, backward store scan before the Ok return",
+    "Static necessary-condition check: the ordering index of accounting records cannot lose equal-time records (key contains the record offset), "
+    "is a BTreeMap walked minimum-first with the served key removed and the map successor returned, the prefilter accepts exactly A <= t <= B and "
+    "skips only null/undecodable records, size()/offset_tv()/size_tv() agree with rustc's layout of every cast struct (all 16 layouts), and the "
+    "rendered record must end at its newline (known finding F11: a NUL is written after it). Does not decide field rendering or layout detection.",
+    "DESIGN.md §3 C08")
+
 NA_REASON = {}
 
 checks = []
